@@ -40,6 +40,8 @@ type connPlan struct {
 	noPubcomp    bool             // a PUBREL is not answered on this connection (the QoS 2 flow stays open after PUBREC)
 	dialGate     string           // the Dialer blocks until this gate opens
 	dialDelay    time.Duration    // the Dialer takes this long
+	inbound      []packet.Generic // application messages the broker delivers right after the CONNACK (and the late acknowledgements)
+	failGate     string           // once this gate is open every Send on this connection fails (the connection is broken, nobody has noticed yet)
 }
 
 // faultFree: the peer of this attempt answers everything promptly and never drops
@@ -91,6 +93,16 @@ func (c *memConn) Send(pkt packet.Generic, async bool) error {
 	if c.plan.failSend == k {
 		ok = false
 	}
+	if c.plan.failGate != "" && c.s.gateOpen(c.plan.failGate) {
+		ok = false
+	}
+	// the service has one client at a time: once the next connection has been dialled the client of this one is
+	// closed, and a closed client is at rest (Close/Disconnect are its join point) - nothing of it sends any more
+	c.s.mu.Lock()
+	if c.s.attempt > c.idx {
+		c.s.leaks = append(c.s.leaks, fmt.Sprintf("the-client-of-connection-%d-still-sends-(%s)-after-connection-%d-was-dialled", c.idx, pkt.Type().String(), c.s.attempt))
+	}
+	c.s.mu.Unlock()
 	// recorded at entry, with the outcome the carrier is going to report
 	c.s.recordSend(c.idx, pkt, ok)
 	if c.plan.holdSend == k {
@@ -236,6 +248,9 @@ func (c *memConn) peer() {
 				for _, a := range p.lateAcks {
 					c.inject(a)
 				}
+				for _, a := range p.inbound {
+					c.inject(a)
+				}
 				if p.dropGate != "" {
 					go func() { c.s.waitGate(p.dropGate); c.drop() }()
 				}
@@ -246,6 +261,11 @@ func (c *memConn) peer() {
 			}
 		case *packet.Disconnect:
 			return
+		case *packet.Pubrec:
+			// the client's answer to an inbound QoS 2 message: release it
+			pr := packet.NewPubrel()
+			pr.ID = v.ID
+			c.inject(pr)
 		case *packet.Pubrel:
 			if p.noPubcomp {
 				c.s.bump("pubrel")
